@@ -48,6 +48,46 @@ def _local_values(fn: ast.AST, name: str) -> List[ast.AST]:
     return out
 
 
+def _loop_element_values(fn: ast.AST, name: str) -> List[ast.AST]:
+    """Expressions a loop variable stands for: ``for name in X`` / ``for (a, name) in X`` where X is (a local bound to) a
+    list/tuple display or a comprehension - the element expression (or its i-th tuple component)."""
+    out: List[ast.AST] = []
+    scopes = [fn] + [a for a in source.ancestors(fn) if isinstance(a, (ast.FunctionDef, ast.AsyncFunctionDef))]
+    for sc in scopes:
+        for n in source.walk_own(sc):
+            if not isinstance(n, (ast.For, ast.comprehension)):
+                continue
+            tgt, it = n.target, n.iter
+            idx = None
+            if isinstance(tgt, ast.Name) and tgt.id == name:
+                idx = -1
+            elif isinstance(tgt, (ast.Tuple, ast.List)):
+                for i, e in enumerate(tgt.elts):
+                    if isinstance(e, ast.Name) and e.id == name:
+                        idx = i
+            if idx is None:
+                continue
+            iters = [it]
+            if isinstance(it, ast.Name):
+                iters = _local_values(sc, it.id) or _local_values(fn, it.id)
+            for x in iters:
+                while isinstance(x, ast.Call) and (call_name(x) or "") in ("list", "tuple", "sorted", "reversed") and x.args:
+                    x = x.args[0]
+                elts: List[ast.AST] = []
+                if isinstance(x, (ast.ListComp, ast.GeneratorExp, ast.SetComp)):
+                    elts = [x.elt]
+                elif isinstance(x, (ast.List, ast.Tuple)):
+                    elts = list(x.elts)
+                for e in elts:
+                    if idx == -1:
+                        out.append(e)
+                    elif isinstance(e, (ast.Tuple, ast.List)) and idx < len(e.elts):
+                        out.append(e.elts[idx])
+        if out:
+            break
+    return out
+
+
 def find_sites(fn: ast.AST, include_nested: bool = True) -> List[Site]:
     sites: List[Site] = []
     for c in source.calls_in(fn, include_nested=include_nested):
@@ -133,6 +173,8 @@ def resolve_pattern(fn: ast.AST, pat: ast.AST, depth: int = 0, binds: Optional[D
         if pat.id in binds:
             return [(binds[pat.id], fn, {})]
         vals = _local_values(fn, pat.id)
+        if not vals:
+            vals = _loop_element_values(fn, pat.id)
         if vals:
             out = []
             for v in vals:
@@ -242,6 +284,86 @@ def is_literal_key(site: Site) -> bool:
     return isinstance(k, ast.Constant)
 
 
+def _is_longest_first(fn: ast.AST, it: ast.AST, depth: int = 0) -> bool:
+    if depth > 5:
+        return False
+    exprs = [it]
+    if isinstance(it, ast.Name):
+        exprs = _local_values(fn, it.id) or [it]
+    if isinstance(it, ast.Call) and call_name(it) == "enumerate" and it.args:
+        inner = it.args[0]
+        exprs = _local_values(fn, inner.id) if isinstance(inner, ast.Name) else [inner]
+    for e in exprs:
+        # order-preserving wrappers: list(X), tuple(X), [f(x) for x in X (if ...)]
+        if isinstance(e, ast.Call) and call_name(e) in ("list", "tuple") and len(e.args) == 1:
+            if _is_longest_first(fn, e.args[0], depth + 1):
+                continue
+            return False
+        if isinstance(e, (ast.ListComp, ast.GeneratorExp)) and len(e.generators) == 1:
+            if _is_longest_first(fn, e.generators[0].iter, depth + 1):
+                continue
+            return False
+        if isinstance(e, ast.Name) and e is not it:
+            if _is_longest_first(fn, e, depth + 1):
+                continue
+            return False
+        if isinstance(e, ast.Call) and call_name(e) == "sorted":
+            kw = {k.arg: k.value for k in e.keywords}
+            rev = kw.get("reverse")
+            key = kw.get("key")
+            by_len, neg = _key_is_length(fn, key)
+            if by_len and ((isinstance(rev, ast.Constant) and rev.value is True) != neg):
+                continue
+        return False
+    return bool(exprs)
+
+
+def _key_is_length(fn: ast.AST, key: Optional[ast.AST]) -> Tuple[bool, bool]:
+    """(the sort key is a length, it is negated): len itself, a lambda returning len(..)/-len(..), or a local function
+    all of whose returns are len(..) of something."""
+    if key is None:
+        return False, False
+    if isinstance(key, ast.Name) and key.id == "len":
+        return True, False
+
+    def is_len(e: ast.AST) -> Tuple[bool, bool]:
+        if isinstance(e, ast.UnaryOp) and isinstance(e.op, ast.USub):
+            ok, neg = is_len(e.operand)
+            return ok, not neg
+        if isinstance(e, ast.Call) and isinstance(e.func, ast.Name) and e.func.id == "len":
+            return True, False
+        return False, False
+    if isinstance(key, ast.Lambda):
+        return is_len(key.body)
+    if isinstance(key, ast.Name):
+        scopes = [fn] + [a for a in source.ancestors(fn) if isinstance(a, (ast.FunctionDef, ast.AsyncFunctionDef))]
+        for sc in scopes:
+            for st in ast.walk(sc):
+                if isinstance(st, ast.FunctionDef) and st.name == key.id and st is not sc:
+                    rets = [r.value for r in source.walk_own(st) if isinstance(r, ast.Return) and r.value is not None]
+                    res = [is_len(r) for r in rets]
+                    if res and all(ok for ok, _ in res) and len({n for _, n in res}) == 1:
+                        return True, res[0][1]
+                    return False, False
+    return False, False
+
+
+def chain_order(fn: ast.AST, site: Site) -> Optional[Tuple[str, ast.AST]]:
+    """For a substitution whose result is fed to the next iteration (``s = p.sub(.., s)`` inside loops): the order of the
+    OUTERMOST enclosing loop (the loop over the different keys).  ('longest-first' | 'unordered', loop) or None when the
+    site is not in a loop."""
+    loops = []
+    for a in source.ancestors(site.call):
+        if a is fn:
+            break
+        if isinstance(a, ast.For):
+            loops.append(a)
+    if not loops:
+        return None
+    outer = loops[-1]
+    return ("longest-first" if _is_longest_first(fn, outer.iter) else "unordered", outer)
+
+
 def loop_order(fn: ast.AST, site: Site) -> Optional[str]:
     """If the site sits in a ``for`` loop: 'longest-first' when the iterable is sorted by length descending,
     'unordered' otherwise; None when not in a loop."""
@@ -249,22 +371,5 @@ def loop_order(fn: ast.AST, site: Site) -> Optional[str]:
         if a is fn:
             break
         if isinstance(a, ast.For):
-            it = a.iter
-            exprs = [it]
-            if isinstance(it, ast.Name):
-                exprs = _local_values(fn, it.id) or [it]
-            if isinstance(it, ast.Call) and call_name(it) == "enumerate" and it.args:
-                inner = it.args[0]
-                exprs = _local_values(fn, inner.id) if isinstance(inner, ast.Name) else [inner]
-            for e in exprs:
-                if isinstance(e, ast.Call) and call_name(e) == "sorted":
-                    kw = {k.arg: k.value for k in e.keywords}
-                    rev = kw.get("reverse")
-                    key = kw.get("key")
-                    keysrc = source.src(key) if key is not None else ""
-                    by_len = "len" in keysrc
-                    neg = "-len" in keysrc.replace(" ", "")
-                    if by_len and ((isinstance(rev, ast.Constant) and rev.value is True) != neg):
-                        return "longest-first"
-            return "unordered"
+            return "longest-first" if _is_longest_first(fn, a.iter) else "unordered"
     return None
